@@ -199,7 +199,9 @@ class EllipsePixelRegion(PixelRegion):
         """
         from matplotlib.patches import Ellipse
 
-        xy = self.center.x - origin[0], self.center.y - origin[1]
+        # in float64: an unsigned integer origin would wrap around
+        xy = (np.subtract(self.center.x, origin[0], dtype=float),
+              np.subtract(self.center.y, origin[1], dtype=float))
         width = self.width
         height = self.height
         # matplotlib expects rotation in degrees (anti-clockwise)
